@@ -54,6 +54,7 @@ impl ChainSim {
         } else {
             None
         };
+        crate::set_sub(step);
         match catch_unwind(AssertUnwindSafe(|| self.step_inner(step))) {
             Ok(s) => s,
             Err(_) => {
